@@ -300,7 +300,7 @@ def parse_terminator(line) -> Term:
             cond = cond[1:].strip()
         return Term("assert", {"cond": parse_operand(cond), "neg": neg, "msg": parts[1] if len(parts) > 1 else "", "targets": parse_targets(m.group(2))}, t)
     # call:  [PLACE = ] FUNC(ARGS) -> targets
-    m = re.match(r"^(?:(.*?) = )?(.*) -> (\[.*\]|unwind .*)$", t)
+    m = re.match(r"^(?:(.*?) = )?(.*) -> (\[.*\]|unwind .*|bb\d+)$", t)
     if m:
         dst, call, tg = m.group(1), m.group(2).strip(), m.group(3)
         if not call.endswith(")"):
@@ -323,7 +323,8 @@ def parse_terminator(line) -> Term:
             except Unsupported:
                 return Operand("const", const=(a.strip(), "opaque"))  # e.g. a function item passed by name
         args = [_arg(a) for a in split_top(call[i + 1:-1])] if call[i + 1:-1].strip() else []
-        targets = parse_targets(tg) if tg.startswith("[") else {"unwind": tg[len("unwind"):].strip()}
+        # `-> bbN` without brackets: a diverging call whose only successor is the unwind (cleanup) block
+        targets = parse_targets(tg) if tg.startswith("[") else ({"unwind": tg} if tg.startswith("bb") else {"unwind": tg[len("unwind"):].strip()})
         return Term("call", {"dst": parse_place(dst) if dst else None, "func": func, "args": args, "targets": targets}, t)
     raise Unsupported(f"terminator: {t!r}")
 
